@@ -75,7 +75,7 @@ func guard(d time.Duration, f func() error) string {
 func retry(total time.Duration, f func() error) string {
 	deadline := time.Now().Add(total)
 	for {
-		r := guard(5*time.Second, f)
+		r := guard(3*time.Second, f)
 		if r == "ok" || r == "hang" || time.Now().After(deadline) {
 			return r
 		}
@@ -85,18 +85,21 @@ func retry(total time.Duration, f func() error) string {
 
 func twice(f func() error) func(env *tenv) (string, string, string) {
 	return func(env *tenv) (string, string, string) {
-		first := guard(5*time.Second, f)
+		first := guard(3*time.Second, f)
 		time.Sleep(2 * time.Millisecond) // let the connection goroutine finish its bookkeeping
 		next := "ok"
 		for i := 0; i < 2 && next == "ok"; i++ {
-			next = retry(3*time.Second, f)
+			next = retry(2*time.Second, f)
 		}
 		return first, next, "intact"
 	}
 }
 
+// tTimeout bounds every Client call (context and Client.Timeout); the stalled-broker runs shorten it.
+var tTimeout = 2 * time.Second
+
 func ctx3() (context.Context, context.CancelFunc) {
-	return context.WithTimeout(context.Background(), 3*time.Second)
+	return context.WithTimeout(context.Background(), tTimeout)
 }
 
 func tscenarios() []tscenario {
@@ -247,43 +250,44 @@ func (s *tscenario) body(env *tenv) (string, string, string) {
 		w := &kafka.Writer{Addr: taddr, Topic: ttopic, Transport: env.tr, Balancer: &kafka.RoundRobin{}, BatchTimeout: time.Millisecond,
 			BatchSize: 1, MaxAttempts: 4, WriteBackoffMin: time.Millisecond, WriteBackoffMax: 5 * time.Millisecond, RequiredAcks: kafka.RequireAll}
 		before := len(env.b.Log())
-		vals := []string{"w1", "w2", "w3", "w4", "w5", "w6"}
-		i := 0
+		var okVals []string // values whose WriteMessages call returned nil, in submission order
+		nsub := 0
 		write := func() error {
 			ctx, cancel := ctx3()
 			defer cancel()
-			v := vals[i]
-			i++
-			return w.WriteMessages(ctx, kafka.Message{Value: []byte(v)})
+			nsub++
+			v := fmt.Sprintf("w%d", nsub)
+			err := w.WriteMessages(ctx, kafka.Message{Value: []byte(v)})
+			if err == nil {
+				okVals = append(okVals, v)
+			}
+			return err
 		}
-		// the Writer retries internally: the call that hits the cut must SUCCEED over a new connection
-		first := guard(6*time.Second, write)
+		// the Writer retries internally: the call that hits a cut PRODUCE response must succeed over a new connection;
+		// a cut of the Transport's initial metadata exchange is surfaced until the Transport refreshes (≤ MetadataTTL):
+		// the follow-up submissions are retried for a while
+		first := guard(4*time.Second, write)
 		time.Sleep(2 * time.Millisecond)
 		next := "ok"
 		for j := 0; j < 2 && next == "ok"; j++ {
-			next = guard(6*time.Second, write)
-			if next == "err" && first == "err" && i < len(vals) {
-				// the Transport was still holding the failed initial metadata state: allow one more submission
-				time.Sleep(60 * time.Millisecond)
-				next = guard(6*time.Second, write)
-			}
+			next = retry(3*time.Second, write)
 		}
 		go w.Close()
 		data := "intact"
 		log := env.b.Log()[before:]
 		pos := 0
-		for _, v := range vals[:i] { // each value once or twice (retry), in submission order
+		for _, v := range okVals { // every acknowledged value once or twice (retry after a lost ack), in submission order
+			for pos < len(log) && log[pos].Value != v { // values of failed submissions may or may not have been applied
+				pos++
+			}
 			c := 0
 			for pos < len(log) && log[pos].Value == v {
 				pos++
 				c++
 			}
-			if first == "ok" && next == "ok" && (c < 1 || c > 2) {
+			if c < 1 || c > 2 {
 				data = fmt.Sprintf("value-%s-x%d", v, c)
 			}
-		}
-		if first == "ok" && next == "ok" && pos != len(log) {
-			data = "unexpected-log-order"
 		}
 		if strings.HasSuffix(s.name, "/metadata") && first != "hang" {
 			first = "returned" // depends on when the Transport refreshes its failed initial metadata: ok or err
@@ -299,13 +303,28 @@ func newEnv() *tenv {
 		b.Append(connfake.Msg{Key: "k", Value: fmt.Sprintf("seed%d", i)})
 	}
 	tr := &kafka.Transport{Dial: b.Dial, DialTimeout: 2 * time.Second, IdleTimeout: 30 * time.Second, MetadataTTL: 40 * time.Millisecond, ClientID: "verif"}
-	return &tenv{b: b, tr: tr, cl: &kafka.Client{Addr: taddr, Transport: tr, Timeout: 3 * time.Second}}
+	return &tenv{b: b, tr: tr, cl: &kafka.Client{Addr: taddr, Transport: tr, Timeout: tTimeout}}
 }
 
 func eventsString(evs []kafka.VerifEvent) string {
 	var out []string
+	// the recorder is process-wide: goroutines of an earlier case that are still winding down may emit events about
+	// connections this recording never saw being created — keep only connections / groups introduced by a T.New here
+	conns, groups := map[string]bool{}, map[string]bool{}
 	for _, e := range evs {
-		if !strings.HasPrefix(e.Kind, "T.") {
+		if e.Kind == "T.New" && len(e.Args) >= 2 {
+			conns[e.Args[0]], groups[e.Args[1]] = true, true
+		}
+	}
+	for _, e := range evs {
+		if !strings.HasPrefix(e.Kind, "T.") || len(e.Args) == 0 {
+			continue
+		}
+		if e.Kind == "T.CloseIdle" {
+			if !groups[e.Args[0]] {
+				continue
+			}
+		} else if !conns[e.Args[0]] {
 			continue
 		}
 		out = append(out, strings.ReplaceAll(e.Kind+":"+strings.Join(e.Args, ":"), " ", "_"))
@@ -319,7 +338,18 @@ func eventsString(evs []kafka.VerifEvent) string {
 // runT runs one scenario with the cut at k (k < 0: no cut) and returns the case line, the trace line and the
 // length of the frame that was (or would have been) cut.
 func runT(s *tscenario, k int) (impl string, trace string, frameLen int) {
+	return runTS(s, k, false)
+}
+
+// runTS: stall = the broker goes silent after the k bytes instead of dropping the connection; the Client's timeout
+// (400 ms in these runs) is what ends the call.
+func runTS(s *tscenario, k int, stall bool) (impl string, trace string, frameLen int) {
+	if stall {
+		defer func(d time.Duration) { tTimeout = d }(tTimeout)
+		tTimeout = 400 * time.Millisecond
+	}
 	env := newEnv()
+	env.b.SetStall(stall)
 	kafka.VerifStart()
 	if k >= 0 {
 		env.b.Cut(s.key, s.nth, k)
@@ -373,8 +403,7 @@ func runT(s *tscenario, k int) (impl string, trace string, frameLen int) {
 //
 //	lo <cut timestamp|none> <true first> <true last> <frame len> <k>\t<call> <first> <last> <error code>
 func multiPart(out *bufio.Writer, r *rand.Rand, thorough bool) (n int) {
-	bad := 0
-	for nth := 1; nth <= 3 && bad < 5; nth++ {
+	for nth := 1; nth <= 3 && badTotal < badBudget; nth++ {
 		flen := 41
 		for _, k := range cuts(r, flen, thorough, 4) {
 			env := newEnv()
@@ -382,7 +411,8 @@ func multiPart(out *bufio.Writer, r *rand.Rand, thorough bool) (n int) {
 				env.b.Cut(2, nth, k)
 			}
 			var impl string
-			res := guard(5*time.Second, func() error {
+			tcase := time.Now()
+			res := guard(3*time.Second, func() error {
 				ctx, cancel := ctx3()
 				defer cancel()
 				resp, err := env.cl.ListOffsets(ctx, &kafka.ListOffsetsRequest{Topics: map[string][]kafka.OffsetRequest{
@@ -407,7 +437,9 @@ func multiPart(out *bufio.Writer, r *rand.Rand, thorough bool) (n int) {
 			})
 			if res == "hang" {
 				impl = "hang - - -"
-				bad++
+				badTotal++
+			} else if time.Since(tcase) > time.Second {
+				badTotal++ // slow (waiting for a context deadline) is as costly as hung
 			}
 			cutTs := "none"
 			if ts := env.b.CutTimestamp(); ts != 0 {
@@ -421,11 +453,170 @@ func multiPart(out *bufio.Writer, r *rand.Rand, thorough bool) (n int) {
 	return
 }
 
+// multiBroker: requests that the Transport splits over several brokers / coordinators of a three-broker cluster
+// (connfake.TCluster) and merges again: ListGroups (one part per broker), DescribeGroups (one part per group, each after
+// a FindCoordinator lookup), DescribeConfigs (one part per broker resource + one for the others), ListOffsets over three
+// partitions with three leaders.  The response to the nth part to arrive (or the nth coordinator lookup) is cut at k.
+//
+//	sm <api> <cut key> <parts> <frame len> <k>\t<call> <entries>     strict merges: error, or ALL entries
+//	lo3 <cut broker|none> <frame len> <k>\t<call> <p0 last:err> <p1 last:err> <p2 last:err>
+//
+// badTotal counts hung / failing end-to-end cases over all scenario families: each one costs its watchdogs, a handful
+// is enough for the replay, so every family stops generating once the budget is spent.
+var badTotal int
+
+const badBudget = 4
+
+func multiBroker(out *bufio.Writer, r *rand.Rand, thorough bool) (n int) {
+	type api struct {
+		name   string
+		cutKey int16
+		parts  int
+		call   func(cl *kafka.Client) (int, error)
+	}
+	apis := []api{
+		{"listGroups", 16, 3, func(cl *kafka.Client) (int, error) {
+			ctx, cancel := ctx3()
+			defer cancel()
+			resp, err := cl.ListGroups(ctx, &kafka.ListGroupsRequest{})
+			if err != nil {
+				return 0, err
+			}
+			if resp.Error != nil {
+				return 0, resp.Error
+			}
+			ok := 0
+			for _, g := range resp.Groups {
+				if g.GroupID == fmt.Sprintf("grp-%d-a", g.Coordinator) || g.GroupID == fmt.Sprintf("grp-%d-b", g.Coordinator) {
+					ok++
+				}
+			}
+			return ok, nil
+		}},
+		{"describeGroups", 15, 4, func(cl *kafka.Client) (int, error) {
+			ctx, cancel := ctx3()
+			defer cancel()
+			resp, err := cl.DescribeGroups(ctx, &kafka.DescribeGroupsRequest{GroupIDs: []string{"ga", "gb", "gc", "gd"}})
+			if err != nil {
+				return 0, err
+			}
+			ok := 0
+			for _, g := range resp.Groups {
+				if g.Error == nil && g.GroupState == "Stable" {
+					ok++
+				}
+			}
+			return ok, nil
+		}},
+		{"describeGroups/coordinator", 10, 4, nil},
+		{"describeConfigs", 32, 4, func(cl *kafka.Client) (int, error) {
+			ctx, cancel := ctx3()
+			defer cancel()
+			resp, err := cl.DescribeConfigs(ctx, &kafka.DescribeConfigsRequest{Resources: []kafka.DescribeConfigRequestResource{
+				{ResourceType: kafka.ResourceTypeBroker, ResourceName: "1"}, {ResourceType: kafka.ResourceTypeBroker, ResourceName: "2"},
+				{ResourceType: kafka.ResourceTypeBroker, ResourceName: "3"}, {ResourceType: kafka.ResourceTypeTopic, ResourceName: ttopic}}})
+			if err != nil {
+				return 0, err
+			}
+			ok := 0
+			for _, rs := range resp.Resources {
+				if rs.Error == nil && len(rs.ConfigEntries) == 1 {
+					ok++
+				}
+			}
+			return ok, nil
+		}},
+	}
+	apis[2].call = apis[1].call
+	newCl := func() (*connfake.TCluster, *kafka.Transport, *kafka.Client) {
+		c := connfake.NewTCluster(ttopic, 3, 3)
+		tr := &kafka.Transport{Dial: c.Dial, DialTimeout: 2 * time.Second, MetadataTTL: time.Hour, ClientID: "verif"}
+		return c, tr, &kafka.Client{Addr: taddr, Transport: tr, Timeout: 2 * time.Second}
+	}
+	for _, a := range apis {
+		if badTotal >= badBudget {
+			break
+		}
+		c0, tr0, cl0 := newCl()
+		if _, err := a.call(cl0); err != nil {
+			fmt.Fprintf(out, "sm %s %d %d 0 0\tsetup-failed 0\n", a.name, a.cutKey, a.parts)
+			continue
+		}
+		flen := c0.LastFrameLen(a.cutKey)
+		go tr0.CloseIdleConnections()
+		for nth := 1; nth <= a.parts && badTotal < badBudget; nth++ {
+			for _, k := range cuts(r, flen, thorough, 3) {
+				c, tr, cl := newCl()
+				if k < flen {
+					c.Cut(a.cutKey, nth, k)
+				}
+				impl := "hang 0"
+				tcase := time.Now()
+				if guard(3*time.Second, func() error {
+					cnt, err := a.call(cl)
+					impl = fmt.Sprintf("%s %d", outcome(err), cnt)
+					return nil
+				}) == "hang" || time.Since(tcase) > time.Second {
+					badTotal++
+				}
+				go tr.CloseIdleConnections()
+				fmt.Fprintf(out, "sm %s %d %d %d %d\t%s\n", a.name, a.cutKey, a.parts, flen, k, impl)
+				n++
+			}
+		}
+	}
+	// ListOffsets over three partitions with three leaders: per-partition isolation (expected value from the C19 model)
+	flen := 41
+	for nth := 1; nth <= 3 && badTotal < badBudget; nth++ {
+		for _, k := range cuts(r, flen, thorough, 3) {
+			c, tr, cl := newCl()
+			if k < flen {
+				c.Cut(2, nth, k)
+			}
+			impl := "hang - - -"
+			tcase := time.Now()
+			if guard(3*time.Second, func() error {
+				ctx, cancel := ctx3()
+				defer cancel()
+				resp, err := cl.ListOffsets(ctx, &kafka.ListOffsetsRequest{Topics: map[string][]kafka.OffsetRequest{
+					ttopic: {kafka.LastOffsetOf(0), kafka.LastOffsetOf(1), kafka.LastOffsetOf(2)}}})
+				if err != nil {
+					impl = "err - - -"
+					return nil
+				}
+				ps := map[int]string{0: "missing", 1: "missing", 2: "missing"}
+				for _, p := range resp.Topics[ttopic] {
+					code := "0"
+					if p.Error != nil {
+						code = "other"
+						var ke kafka.Error
+						if errors.As(p.Error, &ke) {
+							code = fmt.Sprint(int(ke))
+						}
+					}
+					ps[p.Partition] = fmt.Sprintf("%d:%s", p.LastOffset, code)
+				}
+				impl = fmt.Sprintf("ok %s %s %s", ps[0], ps[1], ps[2])
+				return nil
+			}) == "hang" || time.Since(tcase) > time.Second {
+				badTotal++
+			}
+			cutOn := "none"
+			if b := c.CutBroker(); b != 0 {
+				cutOn = fmt.Sprint(b - 1) // partition p is led by broker p+1
+			}
+			go tr.CloseIdleConnections()
+			fmt.Fprintf(out, "lo3 %s %d %d\t%s\n", cutOn, flen, k, impl)
+			n++
+		}
+	}
+	return
+}
+
 func transportPath(out *bufio.Writer, r *rand.Rand, thorough bool) (n int, slowest time.Duration) {
-	bad := 0
 	for _, s := range tscenarios() {
 		s := s
-		if bad >= 6 {
+		if badTotal >= badBudget {
 			break // every failing case costs its watchdogs; a handful is enough for the replay
 		}
 		_, _, flen := runT(&s, -1)
@@ -445,8 +636,8 @@ func transportPath(out *bufio.Writer, r *rand.Rand, thorough bool) (n int, slowe
 			if d := time.Since(t0); d > slowest {
 				slowest = d
 			}
-			if f := strings.Fields(impl); len(f) == 4 && (f[1] != "ok" || f[0] == "hang") {
-				if bad++; bad >= 6 {
+			if f := strings.Fields(impl); len(f) == 4 && (f[1] != "ok" || f[0] == "hang" || time.Since(t0) > 1500*time.Millisecond) {
+				if badTotal++; badTotal >= badBudget {
 					fmt.Fprintf(out, "tp %s %d %d\t%s\n", s.name, flen, k, impl)
 					fmt.Fprintf(out, "tt %s %d %s\taccept\n", s.name, k, trace)
 					break
@@ -454,6 +645,36 @@ func transportPath(out *bufio.Writer, r *rand.Rand, thorough bool) (n int, slowe
 			}
 			fmt.Fprintf(out, "tp %s %d %d\t%s\n", s.name, flen, k, impl)
 			fmt.Fprintf(out, "tt %s %d %s\taccept\n", s.name, k, trace)
+			n++
+		}
+	}
+	return
+}
+
+// transportStall: the Client scenarios against a broker that goes silent after k bytes of the response: the call ends
+// with an error when the Client's timeout expires, the follow-up calls succeed on another connection.
+func transportStall(out *bufio.Writer, r *rand.Rand, thorough bool) (n int) {
+	for _, s := range tscenarios() {
+		s := s
+		if !strings.HasPrefix(s.name, "client.") || badTotal >= badBudget {
+			continue
+		}
+		_, _, flen := runT(&s, -1)
+		if flen == 0 {
+			continue
+		}
+		ks := []int{0, 4 + r.Intn(flen-4)}
+		if !thorough {
+			ks = []int{ks[r.Intn(2)]}
+		}
+		for _, k := range ks {
+			t0 := time.Now()
+			impl, trace, _ := runTS(&s, k, true)
+			if f := strings.Fields(impl); len(f) == 4 && (f[1] != "ok" || f[0] == "hang" || time.Since(t0) > 2500*time.Millisecond) {
+				badTotal++
+			}
+			fmt.Fprintf(out, "tp %s/stall %d %d\t%s\n", s.name, flen, k, impl)
+			fmt.Fprintf(out, "tt %s/stall %d %s\taccept\n", s.name, k, trace)
 			n++
 		}
 	}
